@@ -73,6 +73,7 @@ func (its *counter) ResetSnapshot() {
 }
 
 func (its *counter) Get() int32 {
+	defer its.readLock()()
 	return its.snapshot().Value
 }
 
@@ -94,6 +95,7 @@ func (its *counter) IncreaseBy(delta int32) (int32, errors.OrdaError) {
 }
 
 func (its *counter) ToJSON() interface{} {
+	defer its.readLock()()
 	return struct {
 		Counter interface{}
 	}{
